@@ -9,7 +9,7 @@
 //   single k   : fails exactly the k-th armed allocation, for every k in 1..N.
 //   sticky k   : fails every armed allocation from the k-th on.
 //   random p   : pattern p fails a pseudo-random subset (density 1/4..1/256) from a pseudo-random start.
-// A case (= tape) is (scenario, mode, k); enumeration index = (scenario*3+mode)*KMAX + k.
+// A case (= tape) is (scenario, mode, k); enumeration index = k*257 + scenario*3 + mode.
 // Oracle (in the child, checked by the parent): no sanitizer report / abnormal exit; object-returning calls return
 // a usable object or an error; delivered application data is exactly what the peer sent; a BAD-credential
 // handshake never completes; a completing good handshake performed at least the verification steps of run 0;
@@ -52,6 +52,9 @@ template <class F> static inline auto api_call(F f) -> decltype(f()) { Armed a; 
 #define API(x) api_call([&] { return (x); })
 
 static const uint64_t KMAX = 1u << 15;
+// Enumeration index = k * ROW + (scenario * 3 + mode): k-major, so that a time budget cuts the high-k tail of the largest
+// scenarios and never whole scenarios; ROW is prime (every shard of a 2^n sharding sees every scenario) and leaves room for 85 scenarios.
+static const uint64_t ROW = 257;
 enum { M_SINGLE = 0, M_STICKY = 1, M_RANDOM = 2, M_NONE = 3 };
 static const char *mode_name[] = { "single", "sticky", "random", "none" };
 
@@ -771,7 +774,7 @@ static bool facts_ge(const Facts &a, const Facts &b) { return a.ver_ok >= b.ver_
 // Strides are offset by the seed, so different seeds cover different k.
 static bool selected(const Scn &sc, const Base &b, int mode, uint64_t k) {
     if (g_full) return mode != M_RANDOM || k < 2000;
-    if (mode == M_RANDOM) { uint64_t per = g_quick ? 8 : 300, lo = (g_seed % 16) * 1024; return k >= lo && k < lo + per; }
+    if (mode == M_RANDOM) { uint64_t per = g_quick ? 8 : 300, lo = (g_seed % 16) * per; return k >= lo && k < lo + per; }
     if (k > b.sites.size()) return true;
     bool bulk = b.bulk[k - 1]; uint32_t rank = b.rank[k - 1], ctx = b.ctx[k - 1];
     if (mode == M_SINGLE) {
@@ -795,7 +798,7 @@ static void report(Ctx &c, const std::string &sig, const std::string &detail) {
 
 static void prop(Tape &t, Ctx &c) {
     uint64_t idx = t.u64();
-    uint64_t k = idx % KMAX, sm = idx / KMAX; int mode = (int) (sm % 3); size_t si = (size_t) (sm / 3);
+    uint64_t k = idx / ROW, sm = idx % ROW; int mode = (int) (sm % 3); size_t si = (size_t) (sm / 3);
     if (si >= g_scn.size()) throw Discard{};
     const Scn &s = g_scn[si];
     if (!g_only.empty() && !g_replay && !g_only.count(si)) throw Discard{};
@@ -817,7 +820,10 @@ static void prop(Tape &t, Ctx &c) {
     (void) idx;
     c.count(std::string("mode:") + mode_name[mode]);
     c.count(std::string("kind:") + (s.kind == SC_LOAD ? "load" : s.kind == SC_SESS ? "session" : s.cred == GOOD ? "handshake-good" : "handshake-bad"));
-    if (c.verbose) fprintf(stderr, "case: %s\n  outcome: %s\n  crashed=%d sig=%s\n", where.c_str(), g_shm->outcome, r.crashed, g_shm->sig);
+    if (c.verbose) {
+        fprintf(stderr, "case: %s\n  outcome: %s\n  crashed=%d sig=%s\n", where.c_str(), g_shm->outcome, r.crashed, g_shm->sig);
+        for (uint64_t i = 0; i < g_shm->n_fault && i < C19_FAULTLOG; i++) fprintf(stderr, "  fault %llu: allocation #%llu (%llu bytes) %s\n", (unsigned long long) i + 1, (unsigned long long) g_shm->flog[i].seq, (unsigned long long) g_shm->flog[i].size, stack_str(g_shm->flog[i], 0).c_str());
+    }
     if (r.crashed) {
         std::string sg, dt; crash_signature(r, sg, dt);
         if (c.verbose) fprintf(stderr, "%s\n", r.report.c_str());
@@ -867,7 +873,7 @@ static void prop(Tape &t, Ctx &c) {
 }
 VF_TARGET("C19.alloc_fault", prop, 16, 0)
 namespace vf {
-uint64_t vf_enum_total() { if (g_scn.empty()) build_scenarios(); return (uint64_t) g_scn.size() * 3 * KMAX; }
+uint64_t vf_enum_total() { return ROW * KMAX; }
 void vf_global_init(int argc, char **argv) {
     for (int i = 1; i < argc; i++) {
         std::string a = argv[i];
